@@ -185,8 +185,10 @@ func zzC04SparseObservers(M int) {
 		zzvAssert("bins-total", sum == total)
 		zzvAssert("bins-complete", zzvImplies(g.at(q) > 0, found))
 	case 5:
+		s.KeyAtRank(0) // a read before copying (reads may build internal caches)
 		cp := s.Copy().(*SparseStore)
 		zzvAssert("copy-equal", zzAbsSparse(cp, q) == g.at(q))
+		zzvAssert("copy-shares-no-memory-with-original", zzvDisjoint(s, cp))
 		i := zzIdx("i")
 		c := zzWPos("c")
 		if zzvChoose("mutate", 2) == 0 {
